@@ -235,7 +235,7 @@ def match_known(known, prop, violation):
     for k in known:
         if k.get("status") != "known" or k.get("property") != prop:
             continue
-        if k.get("invariant") != violation["invariant"]:
+        if violation["invariant"] not in [x.strip() for x in str(k.get("invariant", "")).split("/")]:
             continue
         tags = violation.get("tags", {})
         if all(tags.get(a) == b for a, b in k.get("where", {}).items()):
